@@ -1,7 +1,7 @@
 #!/bin/sh
 # usage: tools/confirm_seed.sh <ID> <n>  -- confirms a seeded change in the scratch worktree /tmp/wt/<ID>:
 # applies patch, builds, runs the 38 tests, runs the demo (must fail), reverts, runs the demo (must pass).
-ID=$1; N=$2; WT=/tmp/wt/$ID; S=/tmp/seeds/$ID/$N
+ID=$1; N=$2; WT=${WT:-/tmp/wt/$ID}; S=${SEEDROOT:-/tmp/seeds}/$ID/$N
 LOG=$S/confirm.log; : > $LOG
 cd $WT || exit 2
 git checkout -q -- . ; git clean -fdq -e _build
